@@ -50,7 +50,7 @@ def generate(seed, tier, idx=0):
     prog = program.gen_program(rng, clock=clock, rep=rep,
                                n_events=rng.choice([3, 4, 6, 8, 10, 14, 20]),
                                p_cancel=0.05, p_abs=0.3)
-    stats = [{"kind": rng.choice(KINDS), "via": rng.choice(["direct", "event"])}
+    stats = [{"kind": rng.choice(KINDS), "via": rng.choice(["direct", "event", "event2", "event_ctor"])}
              for _ in range(rng.randint(1, 4))]
     # make sure something lands exactly at the warm-up instant sometimes
     if rng.random() < 0.5 and prog["events"]:
